@@ -184,8 +184,11 @@ CHECKS = {
              'reader Meaning and the table Allowed(type) with the grammar that makes each variation insignificant. TLC checks '
              'that every action preserves Meaning and enumerates every spelling within one (two for short values) permitted '
              'actions of 40 canonical values of 14 field types; each spelling is parsed by the real class and compared with the '
-             'canonical spelling; compose() of the canonical value must itself parse equal.',
-        design_ref='6/C18, Appendix D',
+             'canonical spelling; compose() of the canonical value must itself parse equal. The engines underneath are modelled as coded: '
+             'every call of the text list parser (ParserText.tla) and of the text composer primitives (ComposerText.tla) made while real '
+             'classes work is validated line by line; MC_ComposerText proves that a composed list parses back exactly when no item is '
+             'empty, holds the separator or starts/ends with a blank.',
+        design_ref='6/C18, Appendix D, 14.1, 16',
         note='Trusted: Allowed(type) as my reading of the RFCs; the harness tokeniser (TLC asserts that Render of the tokenised '
              'value reproduces the canonical text); NEL (JSON) is not generated.',
         technique='TLA+ respelling actions enumerated by TLC; replay of the generated spellings into the real parsers'),
